@@ -46,6 +46,193 @@ def gen_validate(rng, n):
     return ops
 
 
+# ---------------------------------------------------------------------------------------------
+# through the real server binary: every request answered, server keeps serving, refused => no effect (live + restart)
+
+NAN, PINF, NINF, FMAX, SUBN = 2143289344, 2139095040, 4286578688, 2139095039, 1
+X_IDS = [100, 101, 102, 103, 104]          # ids the invalid items aim at
+Y_IDS = [105, 106, 107, 108, 109]          # ids the valid items of mixed streams use
+CENSUS = "bq t=ta ids=1,2,3,%s emb=1" % ",".join(str(x) for x in X_IDS + Y_IDS)
+DIM = 3
+
+
+def _vec(rng, kind):
+    good = [f32bits(rng.choice([0.5, 1.0, -1.0, 2.0])) for _ in range(DIM)]
+    if kind == "ok":
+        return good
+    if kind == "empty":
+        return []
+    if kind == "over":
+        return [f32bits(0.5)] * 4097
+    if kind == "wrongdim":
+        return good + [f32bits(1.0)] * rng.choice([1, 5])
+    if kind == "short":
+        return good[:DIM - 1]
+    if kind == "zero":
+        return [0] * DIM
+    if kind in ("nan", "pinf", "ninf", "fmax", "subn"):
+        v = list(good)
+        v[rng.randrange(DIM)] = {"nan": NAN, "pinf": PINF, "ninf": NINF, "fmax": FMAX, "subn": SUBN}[kind]
+        return v
+    raise ValueError(kind)
+
+
+VKINDS = ["empty", "over", "wrongdim", "short", "zero", "nan", "pinf", "ninf", "fmax", "subn"]
+NONFINITE = ("nan", "pinf", "ninf")
+
+
+def _deep(depth, leaf="exact,61,78"):
+    return "not,1," * depth + leaf
+
+
+def rpc_case(rng, n):
+    from .. import rpc
+    ops = ["cfg dim=%d tenants=ta:1000,tb:1000 cap=%d" % (DIM, rng.choice([4, 64])), "start"]
+    for i in (1, 2, 3):
+        ops.append("ins t=ta id=%d v=%s m=61:78 ns=-" % (i, show_vec(_vec(rng, "ok"))))
+    ops.append("ins t=ta id=100 v=%s m=61:79 ns=-" % show_vec(_vec(rng, "ok")))     # one of the X ids already exists (overwrite attempts)
+    ops.append(CENSUS)
+    bad_ids = [0, 4294967296, 18446744073709551615]
+    for _ in range(n):
+        k = rng.choice(["ins", "ins", "ins", "bins", "bins", "bload", "bload", "search", "search", "bsearch", "q", "bq", "del", "bd", "um", "bdf"])
+        vk = rng.choice(VKINDS)
+        if k == "ins":
+            if rng.random() < 0.25:
+                ops.append("ins t=ta id=%d v=%s m=- ns=- #kind=badid" % (rng.choice(bad_ids), show_vec(_vec(rng, "ok"))))
+            else:
+                ops.append("ins t=ta id=%d v=%s m=61:7a ns=- #kind=%s" % (rng.choice(X_IDS), show_vec(_vec(rng, vk)), vk))
+        elif k in ("bins", "bload"):
+            items, kinds = [], []
+            for j in range(rng.randint(1, 5)):
+                if rng.random() < 0.5:
+                    kk = rng.choice(VKINDS + ["badid"])
+                    iid = rng.choice(bad_ids) if kk == "badid" else rng.choice(X_IDS)
+                    items.append("%d;%s;61:7a;-" % (iid, show_vec(_vec(rng, "ok" if kk == "badid" else kk))))
+                    kinds.append(kk)
+                else:
+                    items.append("%d;%s;61:7b;-" % (rng.choice(Y_IDS), show_vec(_vec(rng, "ok"))))
+                    kinds.append("ok")
+            ops.append("%s t=ta docs=%s #kind=%s" % (k, "/".join(items), ",".join(kinds)))
+        elif k in ("search", "bsearch"):
+            what = rng.choice(["vec", "k", "ef", "deep", "emptyops"])
+            q = _vec(rng, vk if what == "vec" and vk != "over" else "ok")
+            kk = rng.choice([0, 1001, 4294967295]) if what == "k" else rng.choice([1, 2, 1000])
+            ef = rng.choice([10001, 4294967295]) if what == "ef" else rng.choice([0, 1, 10000])
+            f = "-"
+            if what == "deep":
+                f = _deep(rng.choice([5, 30, 60, 99, 120, 200]))
+            elif what == "emptyops":
+                f = rng.choice(["and,0", "or,0", "not,0", "none", "or,1,none", "and,2,none,or,0", "not,1,none"])
+            if k == "search":
+                ops.append("search t=ta q=%s k=%d ns=- f=%s emb=0 ef=%d #kind=%s" % (show_vec(q), kk, f, ef, what))
+            else:
+                qs = [show_vec(_vec(rng, "ok")), show_vec(q), show_vec(_vec(rng, "ok"))]
+                ops.append("bsearch t=ta qs=%s k=%d ns=- f=%s ef=%d #kind=%s" % ("/".join(qs), kk, f, ef, what))
+        elif k == "q":
+            ops.append("q t=ta id=%d ns=- emb=1 #kind=badid" % rng.choice(bad_ids))
+        elif k == "bq":
+            if rng.random() < 0.3:
+                ops.append("bq t=ta ids=%s emb=0 #kind=oversized" % ",".join(str(1 + i % 7) for i in range(10001)))
+            else:
+                ops.append("bq t=ta ids=1,%d,2 emb=0 #kind=badid" % rng.choice(bad_ids))
+        elif k == "del":
+            ops.append("del t=ta id=%d ns=- #kind=badid" % rng.choice(bad_ids))
+        elif k == "bd":
+            if rng.random() < 0.3:
+                ops.append("bd t=ta ids=%s ns=- #kind=oversized" % ",".join(str(1000 + i) for i in range(10001)))
+            else:
+                ops.append("bd t=ta ids=1,%d ns=- #kind=badid" % rng.choice(bad_ids[1:]))
+        elif k == "um":
+            ops.append("um t=ta id=%d m=61:7c merge=%d ns=- #kind=badid" % (rng.choice(bad_ids), rng.randint(0, 1)))
+        elif k == "bdf":
+            ops.append("bdf t=ta f=%s ns=- #kind=deep" % _deep(rng.choice([60, 99, 120, 200]), leaf="exact,61,7a7a"))
+        ops.append("q t=ta id=1 ns=- emb=0")           # keeps serving
+        ops.append(CENSUS)
+    ops += ["restart", CENSUS, "stop"]
+    return ops
+
+
+def rpc_oracle(case):
+    raw, impl = case["raw"], case["impl"]
+    fails = []
+    last_census = None
+    for i, (l, r) in enumerate(zip(raw, impl)):
+        if r.startswith("<harness") or r in ("not-running",) or r.startswith(("exited", "start-timeout")):
+            fails.append(("c15-no-answer", i, "`%s` got no answer / the server is gone: %s" % (l[:200], r)))
+            break
+        op = l.split(" ")[0]
+        kind = l.split("#kind=")[1] if "#kind=" in l else None
+        if l == CENSUS:
+            if last_census is not None and last_census[0] != r:
+                j, prev = last_census[1], raw[last_census[1] + 1:i]
+                req = next((x for x in prev if "#kind=" in x), None)
+                ans = impl[raw.index(req)] if req in raw else "?"
+                if req is None:
+                    fails.append(("c15-restart-differs", i, "the census after the restart differs: %s vs %s" % (last_census[0], r)))
+                else:
+                    changed = _changed_ids(last_census[0], r)
+                    kinds = req.split("#kind=")[1].split(",")
+                    rop = req.split(" ")[0]
+                    allowed = set()
+                    if rop in ("bins", "bload"):
+                        items = re.search(r"docs=(\S+)", req).group(1).split("/")
+                        allowed = {it.split(";")[0] for it, kk in zip(items, kinds) if kk in ("ok", "zero", "subn", "fmax")}
+                    elif rop == "ins" and ans.startswith("ok") and kinds[0] in ("zero", "subn", "fmax"):
+                        allowed = {re.search(r"id=(\d+)", req).group(1)}
+                    bad = [c for c in changed if c not in allowed]
+                    if bad:
+                        fails.append(("c15-refused-with-effect", i, "after `%s` (answer `%s`) documents %s changed although the request / item "
+                                      "was invalid: census `%s` -> `%s`" % (req[:300], ans, bad, last_census[0][:300], r[:300])))
+            last_census = (r, i)
+            continue
+        if op == "bsearch" and r.startswith("ok"):
+            parts = [] if r == "ok -" else r[3:].split(" | ")
+            nq = len(re.search(r"qs=(\S+)", l).group(1).split("/"))
+            if not any(p.startswith("err:") for p in parts) and len(parts) != nq:
+                fails.append(("c15-no-answer", i, "`%s`: %d requests in the stream, %d answers and no status: %s" % (l[:200], nq, len(parts), r[:200])))
+        if op == "q" and kind is None and not r.startswith("ok 1~1"):
+            fails.append(("c15-stops-serving", i, "the liveness read after `%s` answers `%s`" % (raw[i - 1][:200], r)))
+        # non-finite vectors are refused on every write path
+        if kind and op == "ins" and kind in NONFINITE and r.startswith("ok"):
+            fails.append(("c15-nonfinite-accepted", i, "`%s` accepted a non-finite vector: %s" % (l[:200], r)))
+        if r.startswith("ok") and re.search(r"~[\d,]*(%d|%d|%d)" % (NAN, PINF, NINF), r):
+            fails.append(("c15-nonfinite-stored", i, "`%s` shows a stored non-finite vector: %s" % (l[:200], r[:300])))
+    return fails
+
+
+def _changed_ids(a, b):
+    def parse(s):
+        m = re.search(r"res=(\S+)", s)
+        return {it.split("~")[0]: it for it in (m.group(1).split(";") if m else [])}
+    pa, pb = parse(a), parse(b)
+    return sorted(k for k in set(pa) | set(pb) if pa.get(k) != pb.get(k))
+
+
+def rpc_stage(rep, thorough, seed, replay_ops=None):
+    from .. import rpc
+    from .C13 import _rpcfs_runner
+    sok, slog, ssecs = rpc.server_build()
+    if not sok:
+        rep.violation(rep.write_replay("server_build.log", slog[-4000:]), no_input=True)
+        return [], {}
+    rng = rng_for(seed, "C15/rpc")
+    cases = [replay_ops] if replay_ops else [rpc_case(rng, 40 if thorough else 22) for _ in range(60 if thorough else 12)]
+    findings, kinds, answers = [], {}, {}
+    for c in _rpcfs_runner([[l.split(" #kind=")[0] for l in c] for c in cases]):
+        c["raw"] = cases.pop(0)                         # keep the kind annotations for the oracle
+        for l, r in zip(c["raw"], c["impl"]):
+            if "#kind=" in l:
+                key = l.split(" ")[0] + ":" + l.split("#kind=")[1].split(",")[0]
+                kinds[key] = kinds.get(key, 0) + 1
+                a = r.split(" ")[0] if r.startswith("err:") else "ok"
+                answers[a] = answers.get(a, 0) + 1
+        for kind, idx, msg in rpc_oracle(c):
+            findings.append({"kind": "oracle", "engine": "rpcfs", "case": c, "idx": idx, "msg": msg,
+                             "sig": {"engine": "rpcfs", "kind": kind}, "pred": None})
+    return findings, {"rpc_pathological_requests": sum(kinds.values()), "rpc_request_kinds": kinds, "rpc_answers": answers,
+                      "server_build_s": round(ssecs, 1)}
+
+
 def run(tier, seed, replay):
     rep = Report("C15", tier, seed)
     thorough = tier == "thorough"
@@ -57,9 +244,11 @@ def run(tier, seed, replay):
         return rep.finish()
     rng = rng_for(seed, "C15")
     lines = gen_validate(rng, 60000 if thorough else 6000)
+    replay_rpc = None
     if replay:
         eng, ops = corr.read_replay(replay)
         lines = ops if eng == "validate" else []
+        replay_rpc = ops if eng == "rpcfs" else None
     ann, res, herr, hrc = run_harness("validate", lines, timeout=1800)
     mres, merr, mrc = run_driver("validate", ann)
     mism = [(l, r, m) for l, r, m in zip(lines, res, mres) if r != m]
@@ -100,6 +289,8 @@ def run(tier, seed, replay):
     prng = rng_for(seed, "C15/persist")
     pcases = [] if replay else [persist.gen_case(prng, n_ops=16, crash=True, torn=False) for _ in range(200 if thorough else 25)]
     pf = collect_persist(pcases, {"c03", "c03-index-reject", "panic"}, rep, stats, lambda k, c: {"engine": "persist", "kind": k})
+    rf, rcov = rpc_stage(rep, thorough, seed, replay_rpc) if (replay_rpc or not replay) else ([], {})
+    pf += rf
     verdict.settle(rep, ok and not (panics or bad or mism), info, pf, MODULE) if (pf or not ok) and not (panics or bad or mism) else None
     proof_coverage(rep, info, "cd lean && lake build %s && lake env lean <#print axioms audit>" % MODULE, TRUSTED)
     rep.coverage.update({
@@ -115,5 +306,6 @@ def run(tier, seed, replay):
         "samples": lines[:5],
         "harness_build_s": round(bsecs, 1),
     })
+    rep.coverage.update(rcov)
     rep.assumptions = ["RPC glue is black-box only"]
     return rep.finish()
